@@ -62,6 +62,16 @@ def cases(tier, seed):
         for a, b in itertools.product(pair_terms, repeat=2):
             for op in OPS:
                 yield {"pos": pos, "l": list(a), "op": op, "r": list(b)}
+        # the same symbols used a second time: an earlier statement of the program already used each EQU symbol in label-SYM / label+SYM / SYM+1
+        for a, b in itertools.product(CORE_TERMS, repeat=2):
+            if a[0] == "equ" or b[0] == "equ":
+                for op in OPS:
+                    for prime in ("LB-{}", "LB+{}", "{}+1"):
+                        yield {"pos": pos, "l": list(a), "op": op, "r": list(b), "prime": prime}
+        for t in CORE_TERMS:
+            if t[0] == "equ":
+                for prime in ("LB-{}", "LB+{}", "{}+1"):
+                    yield {"pos": pos, "l": list(t), "op": None, "r": None, "prime": prime}
 
 
 def term_text(t, name):
@@ -85,11 +95,16 @@ def build(case):
         e = e + op + term_text(r, "EB")
     mnem, tmpl = STMT[pos]
     stmt = "{} {} {}".format("Q" if pos == "equ" else "", mnem, tmpl.format(e=e))
-    mid = [" ORG $4000", "LB NOP", stmt]
+    primes = []
+    if case.get("prime"):
+        for t, name in ((l, "EA"), (r, "EB")):
+            if t and t[0] == "equ":
+                primes.append(" LDU #" + case["prime"].format(name))
+    mid = [" ORG $4000", "LB NOP"] + primes + [stmt]
     if pos == "equ":
         mid.append(" LDX #Q")
     mid.append("LA NOP")
-    return pre + mid + post, len(pre) + 2
+    return pre + mid + post, len(pre) + 2 + len(primes)
 
 
 def all_programs(tier):
@@ -173,6 +188,10 @@ def check_case(case):
     out = common.assemble_confirm(lines)
     w = WIDTH[pos]
     cell = "{}|{}|{}|{}".format(pos, kind_tag(case["l"]), case["op"] or "single", kind_tag(case["r"]))
+    nprime = 0
+    if case.get("prime"):
+        cell = cell.replace(pos + "|", "{}.after[{}]|".format(pos, case["prime"].format("S")), 1)
+        nprime = sum(1 for t in (case["l"], case["r"]) if t and t[0] == "equ")
     res = {"outcome": out["kind"], "state": out["kind"] + ":" + pos, "nontrivial": False}
     viol = []
 
@@ -196,7 +215,7 @@ def check_case(case):
     if out["kind"] != "OK":
         if uses_la:
             # LA's address depends on the statement's own length: 3 (short forms) .. 5 bytes after LB+1
-            cands = [0x4001 + k for k in (1, 2, 3, 4, 5)]
+            cands = [0x4001 + 3 * nprime + k for k in (1, 2, 3, 4, 5)]
         else:
             cands = [None]
         results = []
@@ -226,7 +245,7 @@ def check_case(case):
         res["viol"] = viol
         return res
     image = out["image"]
-    body = image[1:-1]
+    body = image[1 + 3 * nprime:-1]
     if pos == "equ":
         body = body            # the LDX #Q statement
     rm = r % 65536
